@@ -5,6 +5,7 @@ package main
 import (
 	"fmt"
 	"os"
+	"runtime"
 	"runtime/debug"
 	"sort"
 	"sync"
@@ -125,6 +126,9 @@ type RunStats struct {
 	MaxDepth                                                                 int
 }
 
+// cpuSem bounds the number of paths executing at once across all concurrently running explorers.
+var cpuSem = make(chan struct{}, runtime.NumCPU())
+
 type Explorer struct {
 	prog       *ssa.Program
 	pkg        *ssa.Package
@@ -235,7 +239,9 @@ func (ex *Explorer) worker(id int) {
 			}
 		}
 		n++
+		cpuSem <- struct{}{}
 		pending := ex.runPath(tt, sol, fnInfos, job)
+		<-cpuSem
 		ex.mu.Lock()
 		ex.busy--
 		// push in reverse so that the first alternative is explored next (DFS)
